@@ -201,8 +201,33 @@ def judge (goToks caseToks : List String) : Option String := do
     | some s => some s
     | none => some "holds"
 
+def showCs (c : Charset.Charset) : String :=
+  if c.length > 6 then s!"#{c.length}:{(c.headD (0,0)).1}" else ",".intercalate (c.map fun p => if p.1 == p.2 then s!"{p.1}" else s!"{p.1}-{p.2}")
+
+def showRe : Regex → String
+  | .eps => "e"
+  | .cc c => "[" ++ showCs c ++ "]"
+  | .cat a b => "(" ++ showRe a ++ "." ++ showRe b ++ ")"
+  | .alt a b => "(" ++ showRe a ++ "|" ++ showRe b ++ ")"
+  | .rep r mn mx => showRe r ++ "{" ++ toString mn ++ "," ++ (match mx with | none => "" | some m => toString m) ++ "}"
+  | .ext _ => "<ext>"
+
+/-- diagnostic: size of the explored set and two derivative vectors paired with the same state -/
+def debug (c : Case) : String :=
+  match reachable 30000 c.rules c.t with
+  | none => "more than 30000 pairs"
+  | some V =>
+    let states := (V.map (·.1)).eraseDups
+    let worst := states.foldl (fun (best : Int × Nat) q =>
+      let n := (V.filter (·.1 == q)).length
+      if n > best.2 then (q, n) else best) (0, 0)
+    let sample := (V.filter (·.1 == worst.1)).take 2
+    s!"pairs={V.length} states={states.length} worst=state{worst.1}x{worst.2} " ++
+      " || ".intercalate (sample.map fun p => " ; ".intercalate (p.2.map showRe))
+
 def handle (args : List String) : Option String :=
   match args with
+  | "dbg" :: rest => (parseCase rest).map debug
   | "judge" :: rest =>
     let (goToks, caseToks) := splitAt "::" rest
     judge goToks caseToks
